@@ -25,11 +25,12 @@ EDITS = ['twovar', 'reparam', 'lib2', 'libscript', 'invars', 'threevar', 'twins'
 def qpaths(proj, v, dl, mode):
     """{(stack, kind): dir} from the real `bob query-path`"""
     res = {}
-    for kind in ('src', 'build', 'dist'):
-        rc, out = e1.run_bob(proj, ['query-path', '--develop' if mode == 'dev' else '--release', '-q', '-f', '{name}|{%s}' % kind, '//*'] + w1.args(v, dl))
-        for l in out.splitlines():
-            if '|' in l:
-                n, p = l.split('|', 1)
+    # one invocation for all three kinds (process creation is what limits this sandbox)
+    rc, out = e1.run_bob(proj, ['query-path', '--develop' if mode == 'dev' else '--release', '-q', '-f', '{name}|{src}|{build}|{dist}', '//*'] + w1.args(v, dl))
+    for l in out.splitlines():
+        if l.count('|') == 3:
+            n, *ps = l.split('|')
+            for kind, p in zip(('src', 'build', 'dist'), ps):
                 if p.strip(): res[(n.strip(), kind)] = p.strip()
     return res
 
@@ -108,7 +109,7 @@ def history_worker(job):
 
     rc, out, log = bob('dev'); built['dev'] = True
     if rc != 0: return hist, nrun, [('base-build-fails', out[-300:])]
-    prev_paths = qpaths(D.d, v, dl, 'dev'); nrun += 3
+    prev_paths = qpaths(D.d, v, dl, 'dev'); nrun += 1
     prev_v = dict(v)
     for i, a in enumerate(hist):
         h = list(hist[:i + 1])
@@ -118,7 +119,7 @@ def history_worker(job):
             rc, out, log = bob('dev')
             if rc != 0: viol.append(('build-fails', 'history %s: %s' % (h, out[-300:]))); break
             if not check_result('dev', out, 'after-' + a): break
-            paths = qpaths(D.d, v, dl, 'dev'); nrun += 3
+            paths = qpaths(D.d, v, dl, 'dev'); nrun += 1
             for (stack, kind), p in paths.items():
                 sig = variant_sig(stack, v, kind)
                 if sig is not None and (stack, kind) in prev_paths and sig == variant_sig(stack, prev_v, kind) and prev_paths[(stack, kind)] != p:
@@ -142,7 +143,7 @@ def history_worker(job):
             for mode in ('dev', 'build'):
                 if built[mode]:
                     for (stack, kind), p in qpaths(D.d, v, dl, mode).items(): need[p] = (stack, kind, mode)
-                    nrun += 3
+                    nrun += 1
             before = dirs_of(D.d)
             lst = listing(D.d) if 'dry' in a else None
             rc, out = e1.run_bob(D.d, ['clean'] + args + w1.args(v, dl), env); nrun += 1
@@ -187,6 +188,10 @@ def run(ctx):
     # three variants of one recipe in consecutive directories, a fourth one arriving later; identical packages of two recipes
     hists += [('twovar', 'threevar'), ('twovar', 'threevar', 'reparam'), ('threevar', 'twovar', 'libscript'), ('twins',), ('twins', 'clean'), ('twins', 'clean-dry'),
               ('twins', 'release', 'clean'), ('twovar', 'threevar', 'clean'), ('twovar', 'threevar', 'clean-s')]
+    # longer variant churn over the features that add/remove variants of one recipe: a variant leaves, another one arrives
+    # (and inherits the free directory), the first one returns while the second is still there, ...
+    for h in itertools.product(['twovar', 'threevar'] if quick else ['twovar', 'threevar', 'reparam'], repeat=4):
+        hists.append(h)
     # cleans after (edit*, [release])
     for pre in [()] + [(e,) for e in EDITS[:3]] + ([] if quick else [(a, b) for a in EDITS[:3] for b in EDITS[:3]]):
         for rel in ((), ('release',)):
@@ -198,6 +203,8 @@ def run(ctx):
         hists.append((e, e, 'clean', e))
         hists.append((e, 'clean', e))
     hists = sorted(set(hists))
+    if ctx.opts.get('only'):      # debugging aid: restrict the history list
+        hists = [h for h in hists if ctx.opts['only'] in ','.join(h)]
     vecs = set()
     for h in hists:
         v = w1.zero()
